@@ -3,6 +3,8 @@ package rendera
 
 import (
 	"context"
+	"os"
+	"runtime"
 	"sync"
 
 	"oss.terrastruct.com/d2/d2graph"
@@ -18,6 +20,16 @@ var (
 	rulerOnce sync.Once
 	ruler     *textmeasure.Ruler
 )
+
+func init() {
+	// 16 worker processes with 16 Ps each thrash the GC on a shared machine (measured: 200-900 ms per
+	// Wrap/Render at GOMAXPROCS=16 vs 12-40 ms at 1). Every oracle here is single-threaded anyway.
+	for _, a := range os.Args {
+		if a == "--worker" || a == "-worker" || a == "dbg-rendera" {
+			runtime.GOMAXPROCS(1)
+		}
+	}
+}
 
 func theRuler() *textmeasure.Ruler {
 	rulerOnce.Do(func() {
